@@ -1050,8 +1050,9 @@ func (r *Runtime) regexpproto_stdSplitter(call FunctionCall) Value {
 
 	for _, result := range results {
 		if result.indexes[0] == result.indexes[1] {
-			// FIXME Ugh, this is a hack
-			if result.indexes[0] == 0 || result.indexes[0] == targetLength {
+			// An empty match at the start, at the end, or right after the previous match does not split.
+			// (Go's FindAll never reports the latter, regexp2 does.)
+			if result.indexes[0] == lastIndex || result.indexes[0] == targetLength {
 				continue
 			}
 		}
